@@ -236,8 +236,17 @@ def _delay_queries(factory, inner_name, label):
         return out
 
     seq = assignments(inner)
-    if "final_delay" not in [n for n, _v in seq]:
-        raise P.Untranslatable(f"{label}: no assignment to `final_delay` found (directly or through a helper of the same module)")
+    # the delay is whatever is handed to  <Decision>.retry(Duration(seconds=X)) / .wait(Duration(seconds=X)) / Duration(X) / Duration.from_seconds(X)
+    delay_expr = None
+    for st in ast.walk(inner):
+        if isinstance(st, ast.Return) and isinstance(st.value, ast.Call) and isinstance(st.value.func, ast.Attribute) and st.value.func.attr in ("retry", "wait") and st.value.args:
+            dur = st.value.args[0]
+            if isinstance(dur, ast.Call):
+                kw = [k.value for k in dur.keywords if k.arg == "seconds"]
+                delay_expr = kw[0] if kw else (dur.args[0] if dur.args else None)
+    if delay_expr is None:
+        raise P.Untranslatable(f"{label}: no `return <Decision>.retry/wait(Duration(seconds=...))` found in the strategy closure")
+    seq.append(("__delay__", delay_expr))
     jit = P.fn_ast(JitterStrategy.apply_jitter)
     match = [s for s in jit.body if isinstance(s, ast.Match)][0]
 
@@ -306,9 +315,9 @@ def _delay_queries(factory, inner_name, label):
                         tr.env[name] = tr.expr(val)
                     except P.Untranslatable:
                         tr.env.pop(name, None)      # not part of the delay computation (e.g. the retryable-error filters)
-                if "final_delay" not in tr.env:
-                    raise P.Untranslatable(f"{label}: the expression assigned to `final_delay` could not be translated")
-                d = P.to_int(tr.env["final_delay"])
+                if "__delay__" not in tr.env:
+                    raise P.Untranslatable(f"{label}: the delay expression could not be translated")
+                d = P.to_int(tr.env["__delay__"])
                 # reference: capped backoff, then jitter, then ceil, then at least 1
                 powr = z3.RealVal(1)
                 for _ in range(n - 1):
